@@ -6,6 +6,9 @@
  * stdin, one case per line:
  *   cd <parent> <d> <faults|->           create_directory(d) in <parent>
  *   live <parent> <tmp> <fillsrc> <faults|->
+ *   trace <parent> <ev>,<ev>,... <fillsrc> <faults|->     an execution path of a command:
+ *         c:<name> create_directory(name), filled from <fillsrc> when it succeeds;
+ *         r:<name> remove_directory(name);  f:<name> nothing (mkstemp + unlink of a free name)
  * stdout per case:
  *   MODEL <line for `uvmodel C20`>
  *   IMPL <result line in the model's output format>
@@ -263,6 +266,50 @@ int main(void)
 			dump_dir(".", 1, stdout);
 			printf("\n");
 			printf("INFO fired=%d\n", fired);
+		}
+		else if (!strcmp(cmd, "trace") && n == 5) {
+			char *mbuf = NULL, *tok, *save = NULL, *evs = strdup(d);
+			size_t mlen = 0;
+			FILE *m = open_memstream(&mbuf, &mlen);
+			char res[256];
+			int nres = 0;
+
+			parse_faults(a4);
+			fprintf(m, "MODEL trace %s %s |", a4, d);
+			dump_dir(".", 0, m);
+			for (tok = strtok_r(evs, ",", &save); tok; tok = strtok_r(NULL, ",", &save)) {
+				const char *name = tok + 2;
+
+				if (tok[0] == 'c') {
+					armed = 1;
+					ret = create_directory(name);
+					armed = 0;
+					if (nres < 255)
+						res[nres++] = ret == 0 ? '1' : '0';
+					if (ret == 0) {
+						char sh[8192];
+
+						snprintf(sh, sizeof(sh), "cp -r '%s'/. '%s'/ 2>/dev/null", a3, name);
+						if (system(sh) != 0) { /* empty fill source */ }
+						fprintf(m, " |");
+						dump_dir(name, 0, m);
+					}
+				}
+				else if (tok[0] == 'r') {
+					armed = 1;
+					remove_directory(name);
+					armed = 0;
+				}
+			}
+			res[nres] = 0;
+			fclose(m);
+			printf("%s\n", mbuf);
+			printf("IMPL res=%s |", res);
+			dump_dir(".", 1, stdout);
+			printf("\n");
+			printf("INFO fired=%d\n", fired);
+			free(mbuf);
+			free(evs);
 		}
 	}
 	return 0;
